@@ -59,6 +59,13 @@ pub trait Prop: Sync + Send {
     fn assumptions(&self) -> Vec<&'static str> {
         vec![]
     }
+    /// The property itself says that the library's behaviour is a function of its inputs (C19:
+    /// seed and request order). If the library draws on something outside the simulator (OS
+    /// entropy), a replay cannot follow the recorded schedule: for such a property a replay
+    /// that diverges, or that shows the same rule broken again, counts as reproduced.
+    fn nondeterminism_is_the_violation(&self) -> bool {
+        false
+    }
     /// Extra, non-simulated work reported separately (e.g. C14's direct probe). Returns
     /// (violations, json for evidence).
     fn supplement(&self, _tier: Tier, _seed: u64) -> (Vec<Violation>, Value) {
@@ -349,7 +356,10 @@ pub fn replay_file(p: &dyn Prop, j: &Value) -> (bool, bool, String) {
                 .collect::<Vec<_>>()
         ),
     };
-    (hit.is_some() && !out.diverged, dig, msg)
+    let reproduced = if p.nondeterminism_is_the_violation() { hit.is_some() || out.diverged } else { hit.is_some() && !out.diverged };
+    // (for such a property the event log of the replay differs by nature)
+    let dig = dig || (p.nondeterminism_is_the_violation() && reproduced);
+    (reproduced, dig, msg)
 }
 
 pub fn check(p: &dyn Prop, opts: &CheckOpts) -> i32 {
